@@ -329,6 +329,22 @@ def empty_rule(rep, prog, cfg):
         and all(s in reach(g.succs, [some_t]) for s in sends)
     rep.check(ok, rule, cfg + "/None arm skips the connection", b.loc(b.span),
               "an empty typed list does not go straight to responses() without sending anything")
+    # ... and independently of the connection: nothing can fail, and the client's state is not consulted, before the list was
+    # asked whether it is empty (an empty list must give the empty result whatever happened to the connection before)
+    before = reach(g.succs, [0], avoid=[cl[0]])
+    early = []
+    for bb in sorted(before):
+        blk = b.blocks[bb]
+        if blk["t"]["k"] == "return" and bb != cl[0]:
+            early.append("return")
+        t = blk["t"]
+        if t["k"] == "call":
+            for n in callee_names(t):
+                if n.startswith("mpd_client::client::Client::") or n.startswith("tokio::sync::"):
+                    early.append(n.rsplit("::", 1)[-1])
+    rep.check(not early, rule, cfg + "/emptiness decided first", b.loc(b.span),
+              "Client::command_list consults the connection (%s) or can return before asking the list whether it is empty: the result for an empty "
+              "list would depend on the connection's history" % sorted(set(early)))
 
 
 def run(rep, progs, tier):
